@@ -84,7 +84,9 @@ func Verif_C14_RpmSyntax() {
 	rel := verifAlnum("rel", 0, 1)
 	epoch := ""
 	if v.NondetBool("hasEpoch") {
-		epoch = verifNum("epoch", 2)
+		// 1-3 decimal digits, leading zeros allowed ("010" is ten, as dpkg reads the same configuration)
+		epoch = v.NondetStringRange("epoch", 1, 3)
+		v.Assume(v.AllIn(epoch, "0-9"))
 	}
 	m, err := buildRPMMeta(verifInfo(ver, pre, meta, rel, epoch))
 	v.Reach("C14.rpm.syntax.ran")
